@@ -149,6 +149,22 @@ impl Clone for MVal {
         MVal(std::sync::atomic::AtomicI64::new(self.0.load(std::sync::atomic::Ordering::SeqCst)))
     }
 }
+impl PartialEq for MVal {
+    fn eq(&self, o: &Self) -> bool {
+        self.0.load(std::sync::atomic::Ordering::SeqCst) == o.0.load(std::sync::atomic::Ordering::SeqCst)
+    }
+}
+impl Eq for MVal {}
+impl PartialOrd for MVal {
+    fn partial_cmp(&self, o: &Self) -> Option<std::cmp::Ordering> {
+        Some(self.cmp(o))
+    }
+}
+impl Ord for MVal {
+    fn cmp(&self, o: &Self) -> std::cmp::Ordering {
+        self.0.load(std::sync::atomic::Ordering::SeqCst).cmp(&o.0.load(std::sync::atomic::Ordering::SeqCst))
+    }
+}
 impl serde::Serialize for MVal {
     fn serialize<S: serde::Serializer>(&self, s: S) -> Result<S::Ok, S::Error> {
         self.0.load(std::sync::atomic::Ordering::SeqCst).serialize(s)
@@ -521,6 +537,9 @@ macro_rules! kind_reversed {
             }
             true
         }
+        pub fn mval_edges(n: &Node<usize, MVal, u32>) -> Vec<(usize, usize, u32)> {
+            n.iter_out().map(|Edge(u, v, e)| (*u.key(), *v.key(), e)).collect()
+        }
         pub fn lkey_list(n: &Node<LKey, i64, u32>) -> Vec<(usize, u32)> {
             n.iter_out().map(|Edge(_, v, e)| (v.key().id, e)).collect()
         }
@@ -572,6 +591,9 @@ macro_rules! kind_reversed {
             }
             let _ = it.size_hint();
             true
+        }
+        pub fn mval_edges(n: &Node<usize, MVal, u32>) -> Vec<(usize, usize, u32)> {
+            n.iter().map(|Edge(u, v, e)| (*u.key(), *v.key(), e)).collect()
         }
         pub fn lkey_list(n: &Node<LKey, i64, u32>) -> Vec<(usize, u32)> {
             n.iter().map(|Edge(_, v, e)| (v.key().id, e)).collect()
@@ -988,6 +1010,75 @@ macro_rules! ext_mod {
                             }
                         }
                         s
+                    }
+                    "pfsmut" => {
+                        // pfsmut <seed> <min|max>: priority-first traversal over node values with interior mutability that the
+                        // for_each closure lowers (raises) while the nodes are queued - the Dijkstra idiom. What a heap does when its
+                        // elements change order is unspecified; that the closure is called exactly once for every edge leaving a
+                        // reachable node (C07) is not. The line shows the calls and the final values (compared between the members
+                        // of a pair by C15, not by the model).
+                        use std::sync::atomic::Ordering::SeqCst;
+                        let mut x = t[1].parse::<u64>().unwrap_or(1).wrapping_mul(6364136223846793005).wrapping_add(1442695040888963407);
+                        let mut next = |m: u64| -> u64 {
+                            x = x.wrapping_mul(6364136223846793005).wrapping_add(1442695040888963407);
+                            (x >> 33) % m
+                        };
+                        let maxq = t.get(2) == Some(&"max");
+                        let n = 4 + next(4) as usize;
+                        let far: i64 = if maxq { -1000 } else { 1000 };
+                        let nodes: Vec<Node<usize, MVal, u32>> = (0..n).map(|i| Node::new(i, MVal(std::sync::atomic::AtomicI64::new(if i == 0 { 0 } else { far })))).collect();
+                        let mut edges: Vec<(usize, usize, u32)> = vec![];
+                        for i in 0..n - 1 {
+                            if next(4) != 0 {
+                                edges.push((i, i + 1, 1 + next(9) as u32));
+                            }
+                        }
+                        for _ in 0..n + next(n as u64) as usize {
+                            edges.push((next(n as u64) as usize, next(n as u64) as usize, 1 + next(9) as u32));
+                        }
+                        for (u, v, e) in &edges {
+                            nodes[*u].connect(&nodes[*v], *e);
+                        }
+                        let calls: RefCell<Vec<(usize, usize, u32)>> = RefCell::new(vec![]);
+                        let mut f = |e: &Edge<usize, MVal, u32>| {
+                            calls.borrow_mut().push((*e.0.key(), *e.1.key(), e.2));
+                            let du = e.0.value().0.load(SeqCst);
+                            let nd = if maxq { du - e.2 as i64 } else { du + e.2 as i64 };
+                            let dv = e.1.value().0.load(SeqCst);
+                            if (maxq && nd > dv) || (!maxq && nd < dv) {
+                                e.1.value().0.store(nd, SeqCst);
+                            }
+                        };
+                        if maxq {
+                            let _ = nodes[0].pfs().max().for_each(&mut f).search();
+                        } else {
+                            let _ = nodes[0].pfs().min().for_each(&mut f).search();
+                        }
+                        let calls = calls.into_inner();
+                        if !ctx.quiet && ctx.oracles.iter().any(|o| o == "c07") {
+                            // reachable nodes and their own edges, read through the public API after the traversal
+                            let mut reach = vec![0usize];
+                            let mut i = 0;
+                            let own = |k: usize| -> Vec<(usize, usize, u32)> { mval_edges(&nodes[k]) };
+                            while i < reach.len() {
+                                for (_, v, _) in own(reach[i]) {
+                                    if !reach.contains(&v) {
+                                        reach.push(v);
+                                    }
+                                }
+                                i += 1;
+                            }
+                            let mut want: Vec<(usize, usize, u32)> = reach.iter().flat_map(|k| own(*k)).collect();
+                            let mut got = calls.clone();
+                            want.sort();
+                            got.sort();
+                            if want != got {
+                                ctx.fail(case, li, "c07", format!("priority-first traversal over node values that the closure changes while nodes are queued: the closure was called for {:?}; the edges leaving the reachable nodes are {:?} (each exactly once)", got, want));
+                            }
+                        }
+                        let vals: Vec<String> = nodes.iter().map(|nd| nd.value().0.load(SeqCst).to_string()).collect();
+                        ext.annot = None;
+                        format!("calls={} vals=[{}]", fmt_edges(&calls), vals.join(","))
                     }
                     "ecmp" => {
                         // ecmp u i v j : comparison operators on the i-th edge node u iterates and the j-th edge node v iterates
